@@ -8,7 +8,12 @@ class C14(Prop):
     title = "NGAP decoding is total: error or value, never a crash or hang"
     lean_module = "Stgutg.Props.C14"
     gen = ["schema", "registry"]
-    theorems = []
+    theorems = [
+        "Stgutg.Props.C14.schema_ok", "Stgutg.Props.C14.pdu_in_schema", "Stgutg.Props.C14.decoder_params_ok",
+        "Stgutg.Props.C14.fuel_gt", "Stgutg.Props.C14.decoder_total", "Stgutg.Props.C14.unmarshal_total",
+        "Stgutg.Props.C14.decoder_consumes",
+        "Stgutg.Proofs.AperTotal.DOK_decField", "Stgutg.Proofs.AperTotal.unmarshal_good",
+    ]
     domains = [Domain("aper-dec", 400, 20000)]
     rule = ("aper-dec: valid encodings of random NGAP PDUs / transfer containers (type-directed generator over the real ngapType structs), "
             "every ~5% prefix, 12 single bit/byte corruptions incl. adversarial length/count octets (0x00 0x7f 0x80 0xbf 0xc1 0xc4 0xff), "
